@@ -69,7 +69,7 @@ Definition run_roundtrip (x : bytes) : val :=
   end.
 
 (* kind 1: builder.
-   input  [ctype; digest; content:[present; encoded]; pre:[[oid; value]...]; certs:[..]; issuer; serial; dalg:[oid; params];
+   input  [ctype; digest; content:[kind; bytes]; pre:[[oid; value]...]; certs:[..]; issuer; serial; dalg:[oid; params];
            ealg:[oid; params]; sigs:[sig per Sign call]; stamp:[] | [authenticode; token]]
    output [rounds:[ [emitted; preimage_kind; preimage:[status; bytes]; auth_field; spec_attrs_ok; n_auth] ... ]; stamped:[status; bytes]; token regions kept] *)
 Definition valg (v : val) : algid := mkAlg (vb (vnth 0 v)) (vb (vnth 1 v)).
@@ -100,7 +100,9 @@ Definition run_builder (v : val) : val :=
   let ctype := vb (vnth 0 v) in
   let digest := vb (vnth 1 v) in
   let cv := vnth 2 v in
-  let ci := new_ci ctype (if vbool (vnth 0 cv) then Some (vb (vnth 1 cv)) else None) in
+  (* content: [0 _] detached | [1 encoded] NewContentInfo | [2 raw] a ContentInfo taken over from a parsed structure *)
+  let ci := if vz (vnth 0 cv) =? 2 then mkCi (vb (vnth 1 cv)) ctype
+            else new_ci ctype (if vbool (vnth 0 cv) then Some (vb (vnth 1 cv)) else None) in
   let pre := map (fun p => (vb (vnth 0 p), vb (vnth 1 p))) (vl (vnth 3 v)) in
   let certs := map vb (vl (vnth 4 v)) in
   let issuer := vb (vnth 5 v) in
